@@ -157,9 +157,9 @@ func init() {
 		Assumptions: append([]string{"quiet phase: timed regime, zero message latency, distinct per-server jitter (two permutations); bound 10 x ElectionTimeout = 1s of virtual time"}, clusterAssumptions...),
 		Units: func(tier string) []Unit {
 			if tier == "thorough" {
-				return cat(scUnits(2, "conv-crash3", "conv-snap3", "conv-stale-suffix", "conv-majority-restart"), scUnits(1, "conv-snap3-mono", "conv-member", "conv-fig8", "conv-restore3-lagging", "conv-transfer", "conv2-crash3", "conv2-snap3", "conv2-stale-suffix", "conv2-member", "conv2-promote-cut"), scUnits(2, "conv-promote-cut"))
+				return cat(scUnits(2, "conv-crash3", "conv-snap3", "conv-stale-suffix", "conv-majority-restart"), scUnits(1, "conv-snap3-mono", "conv-member", "conv-fig8", "conv-restore3-lagging", "conv-transfer", "conv2-crash3", "conv2-snap3", "conv2-stale-suffix", "conv2-member", "conv2-promote-cut", "conv-term-gap", "conv2-term-gap"), scUnits(2, "conv-promote-cut"))
 			}
-			return scUnits(1, "conv-crash3", "conv-snap3", "conv-snap3-mono", "conv-stale-suffix", "conv-member", "conv-majority-restart", "conv-restore3-lagging", "conv-promote-cut")
+			return scUnits(1, "conv-crash3", "conv-snap3", "conv-snap3-mono", "conv-stale-suffix", "conv-member", "conv-majority-restart", "conv-restore3-lagging", "conv-promote-cut", "conv-term-gap")
 		}})
 	clusterCheck("C18",
 		func() []Unit { return scUnits(1, "notify3", "notify3-back") },
